@@ -22,8 +22,19 @@ struct Mismatch : public std::exception {
     const char* what() const noexcept override { return "mismatch"; }
 };
 
+// When VH_STEPS is set every step of a case announces itself on stderr before it runs, so that the step
+// at which a sanitizer killed the process can be identified by a single re-run.
+inline void step_marker(int k) {
+    static const bool on = std::getenv("VH_STEPS") != nullptr;
+    if (on) {
+        char buf[32];
+        const int n = std::snprintf(buf, sizeof(buf), "STEP %d\n", k);
+        (void)!::write(2, buf, static_cast<std::size_t>(n));
+    }
+}
+
 inline void emit(const json& j) {
-    std::string s = j.dump();
+    std::string s = j.dump(-1, ' ', false, json::error_handler_t::replace);
     s.push_back('\n');
     // single write so that lines of a crashing process are never torn
     (void)!::write(1, s.data(), s.size());
